@@ -26,7 +26,21 @@ use embedded_graphics::Pixel;
 
 pub struct C10;
 
-pub const SIZES: [(u32, u32); 8] = [(0, 0), (1, 1), (3, 2), (5, 4), (8, 3), (9, 2), (13, 3), (16, 1)];
+pub const SIZES: [(u32, u32); 12] = [
+    (0, 0),
+    (1, 1),
+    (3, 2),
+    (5, 4),
+    (8, 3),
+    (9, 2),
+    (13, 3),
+    (16, 1),
+    // rarely drawn: WIDTH == 1, rows longer than 255 pixels / 255 bytes, more than 65535 pixels / bytes
+    (1, 5),
+    (257, 2),
+    (70, 3),
+    (256, 257),
+];
 pub const TAIL: usize = 3;
 
 // ---------------------------------------------------------------- framebuffer behind an object-safe interface
@@ -39,7 +53,7 @@ pub trait FbOps<C: SimColor> {
     fn fb_data(&self) -> &[u8];
     fn fb_data_mut(&mut self) -> &mut [u8];
     /// `as_image() == ImageRaw::new(&data()[..used], size)` and `as_image().pixel(p) == pixel(p)` on the box
-    fn as_image_consistent(&self, used: usize) -> Result<(), String>;
+    fn as_image_consistent(&self, used: usize, pts: &[(i32, i32)]) -> Result<(), String>;
     /// draw `as_image()` at the origin of a fresh draw_iter-only device of the same size; returns its memory
     fn draw_as_image(&self, caps: u8, disc: u8) -> Result<Vec<Option<u32>>, String>;
     /// run `f` on the framebuffer as a type-erased target
@@ -67,20 +81,18 @@ macro_rules! fb_impl {
             fn fb_data_mut(&mut self) -> &mut [u8] {
                 self.data_mut()
             }
-            fn as_image_consistent(&self, used: usize) -> Result<(), String> {
+            fn as_image_consistent(&self, used: usize, pts: &[(i32, i32)]) -> Result<(), String> {
                 let img = self.as_image();
                 let rebuilt = embedded_graphics::image::ImageRaw::<$c, $o>::new(&self.data()[..used], Size::new($w, $h))
                     .map_err(|e| format!("ImageRaw::new over the used prefix failed: {:?}", e))?;
                 if img != rebuilt {
                     return Err("as_image() differs from ImageRaw::new(&data()[..BUFFER_SIZE], (W, H))".into());
                 }
-                for y in 0..$h as i32 {
-                    for x in 0..$w as i32 {
-                        let a = img.pixel(Point::new(x, y)).map(|c| c.to_u32());
-                        let b = GetPixel::pixel(self, Point::new(x, y)).map(|c| c.to_u32());
-                        if a != b {
-                            return Err(format!("as_image().pixel(({},{})) = {:?} but pixel() = {:?}", x, y, a, b));
-                        }
+                for (x, y) in pts {
+                    let a = img.pixel(Point::new(*x, *y)).map(|c| c.to_u32());
+                    let b = GetPixel::pixel(self, Point::new(*x, *y)).map(|c| c.to_u32());
+                    if a != b {
+                        return Err(format!("as_image().pixel(({},{})) = {:?} but pixel() = {:?}", x, y, a, b));
                     }
                 }
                 Ok(())
@@ -134,7 +146,15 @@ macro_rules! fb_pick {
             (6, false) => fb_mk!($c, $o, 13, 3, 0),
             (6, true) => fb_mk!($c, $o, 13, 3, TAIL),
             (7, false) => fb_mk!($c, $o, 16, 1, 0),
-            _ => fb_mk!($c, $o, 16, 1, TAIL),
+            (7, true) => fb_mk!($c, $o, 16, 1, TAIL),
+            (8, false) => fb_mk!($c, $o, 1, 5, 0),
+            (8, true) => fb_mk!($c, $o, 1, 5, TAIL),
+            (9, false) => fb_mk!($c, $o, 257, 2, 0),
+            (9, true) => fb_mk!($c, $o, 257, 2, TAIL),
+            (10, false) => fb_mk!($c, $o, 70, 3, 0),
+            (10, true) => fb_mk!($c, $o, 70, 3, TAIL),
+            (11, false) => fb_mk!($c, $o, 256, 257, 0),
+            _ => fb_mk!($c, $o, 256, 257, TAIL),
         }
     };
 }
@@ -161,6 +181,10 @@ macro_rules! fb_menu {
         fb_menu!(@one $c, $o, $be, 9, 2);
         fb_menu!(@one $c, $o, $be, 13, 3);
         fb_menu!(@one $c, $o, $be, 16, 1);
+        fb_menu!(@one $c, $o, $be, 1, 5);
+        fb_menu!(@one $c, $o, $be, 257, 2);
+        fb_menu!(@one $c, $o, $be, 70, 3);
+        fb_menu!(@one $c, $o, $be, 256, 257);
     };
     (@one $c:ty, $o:ty, $be:expr, $w:expr, $h:expr) => {
         fb_impl!($c, $o, $be, $w, $h, buffer_size::<$c>($w, $h));
@@ -272,7 +296,7 @@ fn gen_point(src: &mut Src, w: i32, h: i32) -> [i32; 2] {
             8 => -1 - src.draw(3) as i32,
             9 => {
                 // would alias an in-range coordinate after a truncating cast
-                let k = [1i32 << 16, -(1 << 16), 1 << 8, 256 * 3][src.draw(4) as usize];
+                let k = [1i32 << 16, -(1 << 16), 1 << 8, 256 * 3, 1 << 15, -(1 << 15), 1 << 24][src.draw(7) as usize];
                 k + if n > 0 { src.draw(n as u32) as i32 } else { 0 }
             }
             10 => [i32::MIN, i32::MAX, i32::MIN + 1, i32::MAX - 1][src.draw(4) as usize],
@@ -415,7 +439,7 @@ fn run_typed<C: FbColor>(sc: &Scenario, opts: &Opts) -> RunOut {
     let (w, h) = SIZES[sc.size as usize];
     let bits = sc.kind.bits();
     let kind_idx = KINDS7.iter().position(|k| *k == sc.kind).unwrap() as u32;
-    out.lattice = ((kind_idx * 2 + sc.be as u32) * 8 + sc.size as u32) * 2 + sc.oversized as u32;
+    out.lattice = ((kind_idx * 2 + sc.be as u32) * 12 + sc.size as u32) * 2 + sc.oversized as u32;
     let stride = ((w as usize) * bits as usize + 7) / 8;
     let used = stride * h as usize;
     let ppb = if bits < 8 { 8 / bits } else { 1 };
@@ -487,9 +511,17 @@ fn run_typed<C: FbColor>(sc: &Scenario, opts: &Opts) -> RunOut {
     let mut written: Vec<bool> = vec![false; (w * h) as usize];
     let mut flipped = false;
 
+    let big = (w as u64) * (h as u64) > 4096;
+    let step_pts: std::cell::RefCell<Vec<(i32, i32)>> = std::cell::RefCell::new(Vec::new());
     let apply = |model: &mut Vec<u32>, written: &mut Vec<bool>, x: i64, y: i64, c: u32, out: &mut RunOut| -> bool {
         if fb_box.contains(x, y) {
             let i = (y * w as i64 + x) as usize;
+            if big {
+                let mut sp = step_pts.borrow_mut();
+                if sp.len() < 4096 {
+                    sp.push((x as i32, y as i32));
+                }
+            }
             if written[i] {
                 out.probes |= probe("overwrite_same_pixel");
             }
@@ -533,6 +565,7 @@ fn run_typed<C: FbColor>(sc: &Scenario, opts: &Opts) -> RunOut {
 
     for (si, step) in sc.steps.iter().enumerate() {
         out.sub_evals += 1;
+        step_pts.borrow_mut().clear();
         let before: Vec<u8> = fb.fb_data().to_vec();
         let mut in_range_writes = 0u64;
         let mut addressed = 0u64;
@@ -549,89 +582,102 @@ fn run_typed<C: FbColor>(sc: &Scenario, opts: &Opts) -> RunOut {
                     panicked = Some(e);
                 }
             }
-            Step::Target { stack, op } => {
-                let m = StackModel::new(fb_box, sc.kind, stack);
+            Step::Target { stack, .. } | Step::Drawable { stack, .. } => {
                 if !stack.is_empty() {
                     out.probes |= probe("through_adapter_stack");
                 }
+                let m = StackModel::new(fb_box, sc.kind, stack);
                 if m.has_crop_over_empty() {
                     continue;
                 }
-                let top = hop_to_top(op);
-                match &top {
-                    TOp::DrawIter(_) => out.probes |= probe("draw_iter_op"),
-                    TOp::FillContiguous { .. } => out.probes |= probe("default_fill_contiguous"),
-                    TOp::FillSolid { .. } => out.probes |= probe("default_fill_solid"),
-                    TOp::Clear(_) => out.probes |= probe("default_clear"),
+                let top = match step {
+                    Step::Target { op, .. } => Some(hop_to_top(op)),
+                    _ => None,
+                };
+                match (&top, step) {
+                    (Some(TOp::DrawIter(_)), _) => out.probes |= probe("draw_iter_op"),
+                    (Some(TOp::FillContiguous { .. }), _) => out.probes |= probe("default_fill_contiguous"),
+                    (Some(TOp::FillSolid { .. }), _) => out.probes |= probe("default_fill_solid"),
+                    (Some(TOp::Clear(_)), _) => out.probes |= probe("default_clear"),
+                    _ => out.probes |= probe("drawable_op"),
                 }
-                let ws = m.push_down(stack.len(), top.writes(&m.top_box()));
-                for (x, y, c) in &ws {
-                    addressed += 1;
-                    if apply(&mut model, &mut written, *x, *y, *c, &mut out) {
-                        in_range_writes += 1;
+                // Reference: the same operation through the same adapter stack on a draw_iter-only
+                // simulated device of the same size (like for like: the framebuffer is a
+                // draw_iter-only target that inherits the same trait defaults), with item logging:
+                // the ordered pixel sequence that device receives is what the framebuffer is written
+                // with. Adapters, trait defaults and drawables are thereby the same code on both
+                // sides; only the framebuffer's own set_pixel / pixel / as_image are judged.
+                let mut dev = SimDisplay::<C>::with_memory(
+                    Rectangle::new(Point::zero(), Size::new(w, h)),
+                    0,
+                    crate::dev::Discipline::ZipPointsFirst,
+                    false,
+                );
+                dev.st.log_items = true;
+                let rr: Result<Result<(), SimError>, String> = match (&top, step) {
+                    (Some(t), _) => {
+                        let mut v = TargetOpVisitor { op: t };
+                        guarded(|| {
+                            let mut boxes = Vec::new();
+                            let mut d = DynTarget::new(&mut dev);
+                            with_stack(&mut d, stack, &mut boxes, &mut v)
+                        })
                     }
-                }
-                let mut v = TargetOpVisitor { op: &top };
-                let r = guarded(|| {
-                    let mut res: Result<(), SimError> = Ok(());
-                    fb.with_target(&mut |t| {
-                        let mut boxes = Vec::new();
-                        res = with_stack(t, stack, &mut boxes, &mut v);
-                    });
-                    res
-                });
-                match r {
-                    Err(e) => panicked = Some(e),
-                    Ok(Err(e)) => panicked = Some(format!("operation returned Err({:#x})", e.0)),
-                    Ok(Ok(())) => {}
-                }
-            }
-            Step::Drawable { stack, spec } => {
-                out.probes |= probe("drawable_op");
-                if !stack.is_empty() {
-                    out.probes |= probe("through_adapter_stack");
-                }
-                let m = StackModel::new(fb_box, sc.kind, stack);
-                if m.has_crop_over_empty() {
-                    continue;
-                }
-                // reference: the same drawable through the same stack on a draw_iter-only simulated
-                // device of the same size (like for like: the framebuffer is a draw_iter-only target)
-                let mut dev = SimDisplay::<C>::new(Rectangle::new(Point::zero(), Size::new(w, h)), 0, crate::dev::Discipline::ZipPointsFirst);
-                let mut dv = DrawableVisitor { spec };
-                let rr = guarded(|| {
-                    let mut boxes = Vec::new();
-                    let mut t = DynTarget::new(&mut dev);
-                    with_stack(&mut t, stack, &mut boxes, &mut dv)
-                });
-                let mut dv2 = DrawableVisitor { spec };
-                let r = guarded(|| {
-                    let mut res: Result<(), SimError> = Ok(());
-                    fb.with_target(&mut |t| {
-                        let mut boxes = Vec::new();
-                        res = with_stack(t, stack, &mut boxes, &mut dv2);
-                    });
-                    res
-                });
+                    (None, Step::Drawable { spec, .. }) => {
+                        let mut v = DrawableVisitor { spec };
+                        guarded(|| {
+                            let mut boxes = Vec::new();
+                            let mut d = DynTarget::new(&mut dev);
+                            with_stack(&mut d, stack, &mut boxes, &mut v)
+                        })
+                    }
+                    _ => unreachable!(),
+                };
+                let r: Result<Result<(), SimError>, String> = match (&top, step) {
+                    (Some(t), _) => {
+                        let mut v = TargetOpVisitor { op: t };
+                        guarded(|| {
+                            let mut res: Result<(), SimError> = Ok(());
+                            fb.with_target(&mut |t| {
+                                let mut boxes = Vec::new();
+                                res = with_stack(t, stack, &mut boxes, &mut v);
+                            });
+                            res
+                        })
+                    }
+                    (None, Step::Drawable { spec, .. }) => {
+                        let mut v = DrawableVisitor { spec };
+                        guarded(|| {
+                            let mut res: Result<(), SimError> = Ok(());
+                            fb.with_target(&mut |t| {
+                                let mut boxes = Vec::new();
+                                res = with_stack(t, stack, &mut boxes, &mut v);
+                            });
+                            res
+                        })
+                    }
+                    _ => unreachable!(),
+                };
                 match (&rr, &r) {
                     (Err(_), Err(_)) => {
-                        // panics identically on the reference device: not this property's business
-                        out.skipped = Some("drawable_panicked_on_reference_device_too");
-                        // state after a panicking operation is unspecified: stop the history here
+                        // panics identically on the reference device: not this property's business;
+                        // the state after a panicking operation is unspecified, so the history ends
+                        out.skipped = Some("operation_panicked_on_reference_device_too");
                         break;
                     }
                     (_, Err(e)) => panicked = Some(e.clone()),
                     (Err(e), _) => panicked = Some(format!("reference device run panicked but framebuffer run did not: {}", e)),
+                    (_, Ok(Err(e))) => panicked = Some(format!("operation returned Err({:#x})", e.0)),
                     _ => {}
                 }
-                for (x, y, c) in dev.st.cells() {
-                    addressed += 1;
-                    if apply(&mut model, &mut written, x as i64, y as i64, c, &mut out) {
-                        in_range_writes += 1;
+                for c in &dev.st.calls {
+                    for (x, y, col) in &c.items {
+                        addressed += 1;
+                        if apply(&mut model, &mut written, *x as i64, *y as i64, *col, &mut out) {
+                            in_range_writes += 1;
+                        }
                     }
                 }
-                // writes outside the box are not visible on the reference device
-                check_identical_if_no_write = dev.st.received_count == 0 || in_range_writes == 0;
             }
             Step::FlipByte { idx, mask } => {
                 if used == 0 {
@@ -711,19 +757,45 @@ fn run_typed<C: FbColor>(sc: &Scenario, opts: &Opts) -> RunOut {
                 out.violation = Some(mk(si, "out_of_range_write_changed_bytes", "no write of this step was inside WIDTH x HEIGHT but data() changed".into()));
             }
         }
+        // which points to read back: everything (box plus margin) for ordinary framebuffers; for
+        // the big ones the pixels addressed by this step and their neighbours, the corners and 512
+        // positions derived from the scenario hash
+        let mut pts: Vec<(i32, i32)> = Vec::new();
+        if !big {
+            for y in -1..h as i32 + 1 {
+                for x in -1..w as i32 + 1 {
+                    pts.push((x, y));
+                }
+            }
+        } else {
+            for (x, y) in step_pts.borrow().iter() {
+                for (dx, dy) in [(0, 0), (-1, 0), (1, 0), (0, -1), (0, 1)] {
+                    pts.push((x + dx, y + dy));
+                }
+            }
+            let (wi, hi) = (w as i32, h as i32);
+            for (x, y) in [(0, 0), (wi - 1, 0), (0, hi - 1), (wi - 1, hi - 1), (-1, 0), (wi, 0), (0, -1), (0, hi), (wi - 1, hi), (wi, hi - 1)] {
+                pts.push((x, y));
+            }
+            let mut st = out.scen_hash ^ (si as u64).wrapping_mul(0x9E37_79B9_7F4A_7C15);
+            for _ in 0..512 {
+                let v = crate::rng::splitmix64(&mut st);
+                pts.push(((v % w as u64) as i32, ((v >> 32) % h as u64) as i32));
+            }
+        }
         if out.violation.is_none() {
+            let pts_ref = &pts;
             let r = guarded(|| {
-                for y in -1..h as i32 + 1 {
-                    for x in -1..w as i32 + 1 {
-                        let got = fb.fb_pixel(x, y);
-                        let want = if x >= 0 && y >= 0 && x < w as i32 && y < h as i32 {
-                            Some(model[(y as u32 * w + x as u32) as usize])
-                        } else {
-                            None
-                        };
-                        if got != want {
-                            return Err(format!("pixel(({},{})) returned {:?}, reference map says {:?}", x, y, got, want));
-                        }
+                for (x, y) in pts_ref.iter() {
+                    let (x, y) = (*x, *y);
+                    let got = fb.fb_pixel(x, y);
+                    let want = if x >= 0 && y >= 0 && x < w as i32 && y < h as i32 {
+                        Some(model[(y as u32 * w + x as u32) as usize])
+                    } else {
+                        None
+                    };
+                    if got != want {
+                        return Err(format!("pixel(({},{})) returned {:?}, reference map says {:?}", x, y, got, want));
                     }
                 }
                 for (x, y) in [(i32::MIN, 0), (0, i32::MAX), (65536, 0), (0, 65536), (-65536, 0), (w as i32 + 256, 0)] {
@@ -740,7 +812,8 @@ fn run_typed<C: FbColor>(sc: &Scenario, opts: &Opts) -> RunOut {
             }
         }
         if out.violation.is_none() {
-            match guarded(|| fb.as_image_consistent(used)) {
+            let inside: Vec<(i32, i32)> = pts.iter().copied().filter(|(x, y)| *x >= 0 && *y >= 0 && (*x as i64) < w as i64 && (*y as i64) < h as i64).collect();
+            match guarded(|| fb.as_image_consistent(used, &inside)) {
                 Err(p) => out.violation = Some(mk(si, "panic", format!("as_image() panicked: {}", p))),
                 Ok(Err(m)) => out.violation = Some(mk(si, "as_image", m)),
                 Ok(Ok(())) => {}
@@ -796,8 +869,8 @@ impl Property for C10 {
     }
     fn runs(&self, tier: Tier) -> u64 {
         match tier {
-            Tier::Quick => 3_000_000,
-            Tier::Thorough => 60_000_000,
+            Tier::Quick => 1_000_000,
+            Tier::Thorough => 30_000_000,
         }
     }
     fn probe_names(&self) -> &'static [&'static str] {
@@ -807,10 +880,10 @@ impl Property for C10 {
         FAULTS
     }
     fn lattice_size(&self) -> u32 {
-        7 * 2 * 8 * 2
+        7 * 2 * 12 * 2
     }
     fn lattice_desc(&self) -> &'static str {
-        "raw width (7) x data order (2) x framebuffer size (8: 0x0,1x1,3x2,5x4,8x3,9x2,13x3,16x1) x buffer exact/oversized (2)"
+        "raw width (7) x data order (2) x framebuffer size (12: 0x0,1x1,3x2,5x4,8x3,9x2,13x3,16x1 and, rarely drawn, 1x5,257x2,70x3,256x257) x buffer exact/oversized (2)"
     }
     fn sub_eval_name(&self) -> &'static str {
         "history_steps_checked"
@@ -823,14 +896,14 @@ impl Property for C10 {
             "after a byte flip the reference map is re-read through the independent layout decoder (the reading of the documented ImageRaw layout that C09 checks)",
             "drawables are referenced by drawing them onto a draw_iter-only SimDisplay of the same size through the same adapter stack",
             "padding bits of rows are not constrained",
-            "const generics force a fixed menu of 224 framebuffer types",
+            "const generics force a fixed menu of 336 framebuffer types; for framebuffers with more than 4096 pixels the read-back after a step covers the pixels addressed by the step and their neighbours, the corners, and 512 positions derived from the scenario hash instead of every pixel",
         ]
     }
 
     fn gen(&self, src: &mut Src) -> Scenario {
         let kind = KINDS7[src.draw(7) as usize];
         let be = src.bool();
-        let size = src.draw(8) as u8;
+        let size = if src.draw(8) == 7 { 8 + src.draw(4) as u8 } else { src.draw(8) as u8 };
         let oversized = src.bool();
         let tail_fill = [src.draw(256) as u8, src.draw(256) as u8, src.draw(256) as u8];
         let (w, h) = SIZES[size as usize];
@@ -873,7 +946,8 @@ impl Property for C10 {
                     mask: 1u8 << src.draw(8),
                 },
                 _ => Step::ReadBackAsImage {
-                    caps: src.draw(8) as u8,
+                    // always with a native fill_contiguous, so that no trait default is involved
+                    caps: src.draw(8) as u8 | crate::dev::CAP_CONTIG,
                     disc: src.draw(4) as u8,
                 },
             };
